@@ -21,8 +21,8 @@ MSGLEN = 18
 # the schedules of the proved counterexample theorems in lean/MpVerif/C15/Props.lean (replayed on the real code)
 COUNTEREXAMPLES = [
     ('C15_counterexample_lost_in_ctor_window', 'bsd C W | 5:I', 'ctor-window:lost'),
-    ('C15_counterexample_mispaired_first_registration', 'bsd C R:1:1 | 8:I', 'sethandler-window:mispaired'),
-    ('C15_counterexample_mispaired_reregistration', 'bsd C R:1:1 R:2:2 | 10:I', 'sethandler-window:mispaired'),
+    ('C15_counterexample_mispaired_first_registration', 'bsd C R:1:1 | 8:I', 'sethandler-window:mispaired:new-callback-old-data'),
+    ('C15_counterexample_mispaired_reregistration', 'bsd C R:1:1 R:2:2 | 10:I', 'sethandler-window:mispaired:new-callback-old-data'),
     ('C15_counterexample_third_no_exit_ctor_window', 'bsd C W | 5:I 7:I 7:I', 'ctor-window:third-no-exit'),
     ('C15_counterexample_early_exit_ctor_window', 'bsd C W | 5:I 5:I', 'ctor-window:early-exit'),
     ('C15_counterexample_third_no_exit_across_teardown', 'bsd C W D W | 8:I 8:I 13:I', 'across-teardown:third-no-exit'),
@@ -200,6 +200,7 @@ def oracle(case, impl):
     terminated = False
     seen_dtor = False
     handled_since_ctor = 0
+    installed_obj = {'I': False, 'T': False}
     for t in toks[1:]:
         hd = t['head']
         if hd == 'end':
@@ -220,11 +221,14 @@ def oracle(case, impl):
             in_ctor = cur is not None and cur[1] == 'C' and cur[2] >= 1
             in_dtor = cur is not None and cur[1] == 'D' and cur[2] >= 1
             dtor_handler_cleared = in_dtor and cur[2] >= 3
-            installed_strict = st['I' if g == 'I' else 'T'] == '1'
+            # "installed" (strict reading) for the current handler object: its own signal() call for g has been made
+            installed_strict = installed_obj[g] and st[g] == '1' or (installed_obj[g] and 'killed' in a)
             if 'killed' in a:
                 terminated = True
                 if ever_installed[g]:
                     bad.append(('killed-after-install', 'signal %s handled by the default action although the handler had been installed' % g))
+                elif obj_phase in ('body', 'dtor'):
+                    bad.append(('killed-while-installed', 'signal %s handled by the default action although a handler object is fully constructed' % g))
                 break
             brk = a.get('brk', '')
             if brk not in ('0', str(MSGLEN)):
@@ -271,8 +275,14 @@ def oracle(case, impl):
                     allowed.add(reg_new)
                 for c in cbs:
                     if c not in allowed:
-                        cls = 'sethandler-window' if in_reg else 'other'
-                        bad.append(('%s:mispaired' % cls, 'callback %d invoked with data %d; registered: %s%s' %
+                        if in_reg:
+                            old = completed or (0, int(st['d']))   # nothing registered yet: data_ still holds what it held before
+                            kind = ('new-callback-old-data' if c == (reg_new[0], old[1]) else
+                                    'old-callback-new-data' if c == (old[0], reg_new[1]) else 'unrelated')
+                            cls = 'sethandler-window:mispaired:' + kind
+                        else:
+                            cls = 'other:mispaired'
+                        bad.append((cls, 'callback %d invoked with data %d; registered: %s%s' %
                                     (c[0], c[1], completed, (' (SetHandler%s in progress)' % (reg_new,)) if in_reg else '')))
                 if must and must not in cbs:
                     bad.append(('callback-missing', 'registered callback %s not invoked' % (must,)))
@@ -308,6 +318,11 @@ def oracle(case, impl):
                 counted = []
                 pending_lost = []
                 handled_since_ctor = 0
+                installed_obj = {'I': False, 'T': False}
+            if hd == 'sh.ctor.after_signal_int':
+                installed_obj['I'] = True
+            if hd == 'sh.ctor.after_signal_term':
+                installed_obj['T'] = True
             if k == len(CTOR_NAMES) - 1:
                 obj_phase = 'body'
         elif m == 'D':
